@@ -13,6 +13,8 @@ func main() {
 	switch os.Args[1] {
 	case "sm":
 		runSM(os.Args[2:])
+	case "table":
+		runTable(os.Args[2:])
 	default:
 		fmt.Fprintln(os.Stderr, "unknown mode", os.Args[1])
 		os.Exit(2)
